@@ -99,3 +99,24 @@ fn kf_d13_obsolete_chunk_is_never_removed() -> Result<(), io::Error> {
     assert!(closed.contains(&0), "D13: expected the obsolete first chunk to be still present after purge+flush+idle, closed chunks: {:?}", closed);
     Ok(())
 }
+
+#[test]
+fn kf_d12_corrupted_length_prefix_is_absorbed_as_a_torn_tail() -> Result<(), io::Error> {
+    use std::os::unix::fs::FileExt;
+    let ctx = TestContext::new()?;
+    {
+        let mut rl = ctx.new_raft_log()?;
+        rl.append([((5, 0), ss("a0")), ((5, 1), ss("a1")), ((5, 2), ss("a2"))])?;
+        blocking_flush(&mut rl)?;
+    }
+    let p = ctx.config.chunk_path(crate::ChunkId(0));
+    let f = std::fs::OpenOptions::new().read(true).write(true).open(&p)?;
+    // record 0: State (18 bytes); record 1 = Append at 18: tag(4) log id(16) payload length(4) => length prefix at 18+20
+    f.write_at(&[0x40], 18 + 20)?;
+    let rl = ctx.new_raft_log();
+    assert!(rl.is_ok(), "D12: expected open to SUCCEED although a byte of a complete, flushed record was altered");
+    let rl = rl?;
+    let got = rl.read(0, 10).collect::<Result<Vec<_>, _>>()?;
+    assert!(got.is_empty(), "D12: expected the three flushed entries to be silently gone, got {:?}", got);
+    Ok(())
+}
